@@ -45,17 +45,39 @@ impl AnyBuilder {
         }
     }
 
-    /// Converts the builder; returns {ok, len, ones} (and the maximal runs for the run-length vector).
-    pub fn finish(self) -> Value {
+    /// Converts the builder; returns {ok, len, ones} (and the maximal runs for the run-length vector), and whether the vector
+    /// is == to, serializes like and answers like `reference` - the vector built by a fresh builder that was only ever given
+    /// the accepted positions (a refused call must leave nothing behind, also where the iterators do not look).
+    pub fn finish(self, reference: Option<AnyBuilder>) -> Value {
+        use crate::layout::to_bytes;
+        use simple_sds::ops::{PredSucc, Rank, SelectZero};
         match self {
             AnyBuilder::Sparse(b) => match SparseVector::try_from(b) {
-                Ok(v) => json!({"ok": true, "len": enc(v.len()), "ones": v.one_iter().map(|(_, p)| enc(p)).collect::<Vec<Value>>()}),
+                Ok(v) => {
+                    let mut r = json!({"ok": true, "len": enc(v.len()), "ones": v.one_iter().map(|(_, p)| enc(p)).collect::<Vec<Value>>()});
+                    if let Some(AnyBuilder::Sparse(rb)) = reference {
+                        if let Ok(rv) = SparseVector::try_from(rb) {
+                            let n = v.len().min(300);
+                            let same_answers = guarded(|| (0..=n + 1).all(|i| v.rank(i) == rv.rank(i) && v.successor(i).next() == rv.successor(i).next() && v.predecessor(i).next() == rv.predecessor(i).next())).unwrap_or(false);
+                            r["as_reference"] = json!([v == rv, to_bytes(&v) == to_bytes(&rv), same_answers]);
+                        }
+                    }
+                    r
+                },
                 Err(_) => json!({"ok": false}),
             },
             AnyBuilder::RL(b) => {
                 let v = RLVector::from(b);
-                json!({"ok": true, "len": enc(v.len()), "ones": v.one_iter().map(|(_, p)| enc(p)).collect::<Vec<Value>>(),
-                       "runs": v.run_iter().map(|(s, l)| json!([enc(s), enc(l)])).collect::<Vec<Value>>()})
+                let mut r = json!({"ok": true, "len": enc(v.len()), "ones": v.one_iter().map(|(_, p)| enc(p)).collect::<Vec<Value>>(),
+                       "runs": v.run_iter().map(|(s, l)| json!([enc(s), enc(l)])).collect::<Vec<Value>>()});
+                if let Some(AnyBuilder::RL(rb)) = reference {
+                    let rv = RLVector::from(rb);
+                    let n = v.len().min(300);
+                    let same_answers = guarded(|| (0..=n + 1).all(|i| v.rank(i) == rv.rank(i) && v.successor(i).next() == rv.successor(i).next() && v.predecessor(i).next() == rv.predecessor(i).next())
+                                                   && v.zero_iter().take(300).eq(rv.zero_iter().take(300))).unwrap_or(false);
+                    r["as_reference"] = json!([v == rv, to_bytes(&v) == to_bytes(&rv), same_answers]);
+                }
+                r
             },
         }
     }
@@ -86,13 +108,23 @@ pub fn replay_case(case: &Value, tally: &mut Tally) {
         let obs = guarded_val(|| b.observe());
         if !tally.check(hkey(&[key, 1]), true, &|| ctx(i as i64, "observables after call"), &s["obs"], &obs) { return; }
     }
-    let fin = match guarded(|| b.finish()) { Ok(v) => v, Err(msg) => json!({"panic": msg}) };
     let exp = &case["finish"];
+    // the reference: a fresh builder of the same kind that is given exactly the positions the specification says were accepted
+    let reference = if exp["ok"] == json!(true) { guarded(|| {
+        let ones: Vec<usize> = exp["ones"].as_array().unwrap().iter().map(dec_arg).collect();
+        match &b {
+            AnyBuilder::Sparse(sb) => { let mut r = if sb.is_multiset() { SparseBuilder::multiset(sb.universe(), sb.capacity()) } else { SparseBuilder::new(sb.universe(), sb.capacity()).unwrap() }; for p in ones.iter() { r.set(*p); } AnyBuilder::Sparse(r) },
+            AnyBuilder::RL(_) => { let mut r = RLBuilder::new(); for p in ones.iter() { r.try_set(*p, 1).unwrap(); } r.set_len(dec_arg(&exp["len"])); AnyBuilder::RL(r) },
+        }
+    }).ok() } else { None };
+    let had_ref = reference.is_some();
+    let fin = match guarded(|| b.finish(reference)) { Ok(v) => v, Err(msg) => json!({"panic": msg}) };
     if exp["ok"] == json!(false) {
         tally.check(hkey(&[key, 2]), true, &|| ctx(99, "conversion of a builder that is not full"), &json!({"ok": false}), &fin);
     } else {
         let mut e = json!({"ok": true, "len": exp["len"], "ones": exp["ones"]});
         if fin.get("runs").is_some() { e["runs"] = maximal_runs(exp["ones"].as_array().unwrap()); }
+        if had_ref && fin.get("as_reference").is_some() { e["as_reference"] = json!([true, true, true]); }
         tally.check(hkey(&[key, 2]), true, &|| ctx(99, "converted vector: length, set bits (and maximal runs)"), &e, &fin);
     }
     if case["steps"].as_array().unwrap().len() >= 3 { tally.sample(json!({"init": init["op"], "calls": case["steps"].as_array().unwrap().iter().map(|s| s["c"].clone()).collect::<Vec<Value>>()})); }
@@ -131,7 +163,7 @@ pub fn record_builder(seed: u64, thorough: bool, path: &str) -> Value {
                 out.push(json!({"e": "b_call", "c": c, "res": res, "obs": obs}));
                 calls += 1;
             }
-            out.push(json!({"e": "b_finish", "fin": b.finish()}));
+            out.push(json!({"e": "b_finish", "fin": b.finish(None)}));
         } else {
             let init = json!({"op": "rl"});
             let mut b = construct(&init).unwrap();
@@ -151,7 +183,7 @@ pub fn record_builder(seed: u64, thorough: bool, path: &str) -> Value {
                 out.push(json!({"e": "b_call", "c": c, "res": res, "obs": obs}));
                 calls += 1;
             }
-            out.push(json!({"e": "b_finish", "fin": b.finish()}));
+            out.push(json!({"e": "b_finish", "fin": b.finish(None)}));
         }
     }
     out.write(path);
